@@ -4,7 +4,7 @@ suspension monitor from the statement + comparison with the reference interprete
 META = dict(
     engine="flo", level="model_checking",
     technique="explicit-state BFS over env-input histories of enumerated FloScript programs with conditional auxiliaries on the real Builder/Skedder; suspension invariants + reference interpreter conformance",
-    text="Chain f0>f1>f2 plus root f3; `aux x if e0` at depth 0/1/2; x completing in its first run / after 1 or 2 further runs / never / with a guarded "
+    text="Chain f0>f1>f2 plus root f3 with `aux x if e0` at depth 0/1/2, and fork f0>{f1,f2} started in the primary or the non-primary branch; x completing in its first run / after 1 or 2 further runs / never / with a guarded "
          "first frame; one transition on e1 from every chain frame to every frame or itself, placed before or after the aux line; explored through "
          "every reachable (state x env input) so the condition toggles at every tick. Monitors: a running conditional aux runs every tick "
          "regardless of its condition; frames below its main frame get no recur and no transition evaluation; clauses after the aux line are "
@@ -20,6 +20,7 @@ from mc.flo import runner
 def family():
     from mc.flo import families as F
     yield from F.fam_cond_aux()
+    yield from F.fam_cond_aux_fork()
 
 
 def on_prog(p, idx, label, prog, meta):
